@@ -136,8 +136,8 @@ class _Inputs:
                     if n.value.id == 'self' and isinstance(n.ctx, ast.Load):
                         if n.attr != skip_attr and not self._is_method(n):
                             out.add(f"a:self.{n.attr}")
-                    elif n.value.id == 'MasterConfig':
-                        out.add(f"g:MasterConfig.{n.attr}")
+                    elif n.value.id == 'MasterConfig' and n.attr == n.attr.lower() and not n.attr.startswith('__'):
+                        out.add(f"g:MasterConfig.{n.attr}")      # a setting (lower case); the _UPPER tables are constants
                 elif isinstance(n, ast.Name) and isinstance(n.ctx, ast.Load):
                     if n.id in self.params:
                         out.add(f"p:{n.id}")
@@ -467,7 +467,8 @@ def cached_functions(ctx, funcs, rule='MEMO'):
                 r = resolve(ctx, fi, c)
                 if r:
                     for x in ast.walk(r[0].node):
-                        if isinstance(x, ast.Attribute) and isinstance(x.value, ast.Name) and x.value.id == 'MasterConfig':
+                        if isinstance(x, ast.Attribute) and isinstance(x.value, ast.Name) and x.value.id == 'MasterConfig' \
+                                and x.attr == x.attr.lower():
                             extra.append(f"g:MasterConfig.{x.attr} (in {r[0].qualname})")
         ctx.check(not extra, rule, f"{fi.qualname}: the cached function depends on its parameters only",
                   detail_bad=f"the result is cached per argument tuple but also depends on "
